@@ -196,21 +196,37 @@ func heartbeats(t *testing.T, r *vrep.Report, backend string) {
 }
 
 // batchLimit: a commit whose batches are cut by a small request batch size limit and by the region layout.
-func batchLimit(t *testing.T, r *vrep.Report, backend string, pess, async bool, limit int) {
+func batchLimit(t *testing.T, r *vrep.Report, backend string, pess, async, onePC bool, limit int) {
 	_ = failpoint.Enable("tikvclient/twoPCRequestBatchSizeLimit", "return")
 	defer failpoint.Disable("tikvclient/twoPCRequestBatchSizeLimit")
-	sh := crash.Shape{Backend: backend, Pessimistic: pess, Async: async,
+	sh := crash.Shape{Backend: backend, Pessimistic: pess, Async: async, OnePC: onePC,
 		Muts:   []crash.Mut{{Key: "k1", Kind: crash.MPut}, {Key: "k2", Kind: crash.MDel}, {Key: "k3", Kind: crash.MPut}, {Key: "k4", Kind: crash.MInsert}, {Key: "k5", Kind: crash.MPut}, {Key: "k6", Kind: crash.MPut}},
 		Splits: []string{"k3", "k5"}, Pre: []string{"k1", "k2", "k3"}}
+	if onePC {
+		// one region, several requests: the batch size limit alone must make the commit give up one-phase commit
+		sh.Splits = nil
+	}
 	env, err := crash.NewEnv(sh)
 	if err != nil {
 		r.Inconc("env: %v", err)
 		return
 	}
 	defer env.Close()
+	if onePC {
+		// a store that honours try_one_pc on two requests of one transaction commits each on its own and the client
+		// ends the process (Fatal "one pc happened multiple times"): only the first such request is delivered, so
+		// that the trace monitor (rule 10) gets to judge the request stream
+		var onePCReqs atomic.Int32
+		env.Victim.Net.SetDecider(func(c *uni.Call) uni.Action {
+			if req, ok := c.Req.(*kvrpcpb.PrewriteRequest); ok && req.TryOnePc && onePCReqs.Add(1) > 1 {
+				return uni.Action{Kind: uni.DropReq}
+			}
+			return uni.Action{}
+		})
+	}
 	rec := env.RunVictim(nil)
 	env.U.Drain()
-	label := fmt.Sprintf("batch-limit %s pess=%v async=%v", backend, pess, async)
+	label := fmt.Sprintf("batch-limit %s pess=%v async=%v 1pc=%v", backend, pess, async, onePC)
 	r.Eval(1)
 	r.Count("batch_limit_scenarios", 1)
 	n := 0
@@ -239,9 +255,11 @@ func TestVerifC04Dedicated(t *testing.T) {
 			}
 		}
 		for _, pess := range []bool{false, true} {
-			batchLimit(t, r, be, pess, false, 1)
+			batchLimit(t, r, be, pess, false, false, 1)
 			if be == uni.Uni {
-				batchLimit(t, r, be, pess, true, 1)
+				batchLimit(t, r, be, pess, true, false, 1)
+				batchLimit(t, r, be, pess, true, true, 1)
+				batchLimit(t, r, be, pess, false, true, 1)
 			}
 		}
 	}
@@ -251,4 +269,5 @@ func TestVerifC04Dedicated(t *testing.T) {
 	r.Floor("live_lock_scenarios", 4)
 	r.Floor("heartbeats_seen", 1)
 	r.Floor("rule5_evaluated", 1)
+	r.Floor("batch_limit_scenarios", 10)
 }
